@@ -4,7 +4,8 @@
    The process working directory is explicit state.  git itself (what GitPython's Diffable.diff returns) and the
    file system are an uninterpreted "world": the theorems hold for every world.  Source facts that decide the
    behaviour (what pushd saves, whether it restores in a finally block, the notebook suffix, what the
-   all-arguments-are-paths branch of resolve_diff_args assigns to base) are a record [facts]; the value for the
+   all-arguments-are-paths branch of resolve_diff_args assigns to base, whether the working-tree read is skipped for an
+   entry git reports as deleted) are a record [facts]; the value for the
    current source is GENERATED into Gen/GitRefsFacts.v by tools/gen/gen_gitrefs.py. *)
 From Coq Require Import List NArith Bool Arith.
 From NB Require Import Base.Json.
@@ -22,7 +23,9 @@ Record facts := {
   f_allpaths_base : allpaths_base_t; (* resolve_diff_args, three or more positionals, first is not a ref *)
   f_skip_both : bool;              (* changed_notebooks skips an entry only when BOTH sides are not notebooks
                                       (false: as soon as either side is not a notebook) *)
-  f_filter_in_try : bool           (* apply_possible_filter(path) is called inside the try/except IOError *)
+  f_filter_in_try : bool;          (* apply_possible_filter(path) is called inside the try/except IOError *)
+  f_deleted_missing : bool         (* the remote side of an entry git reports as deleted (entry.deleted_file) is the missing
+                                      file when the remote is the working tree: nothing on disk is looked at for it *)
 }.
 
 (* ------------------------------------------------------------------ paths *)
@@ -60,7 +63,8 @@ Inductive fres := FNone                        (* apply_possible_filter returned
                 | FRaiseIO                     (* it raised IOError/OSError (the file is not there) *)
                 | FRaise.                      (* it raised something else *)
 Inductive ref := RCommit (name : pystr) | RIndex | RWorktree.
-Record entry := { a_path : path; a_blob : option content; b_path : path; b_blob : option content }.
+Record entry := { a_path : path; a_blob : option content; b_path : path; b_blob : option content;
+                  e_deleted : bool }.             (* GitPython: entry.deleted_file, git's status D *)
 Record world := {
   w_fs : path -> option content;               (* absolute path -> content of a readable file there *)
   w_filter : path -> path -> fres;             (* cwd, path -> outcome of apply_possible_filter(path) *)
@@ -88,7 +92,8 @@ Definition pushd_body (F : facts) (W : world) (cwd p : path) : outcome :=
 
 Definition read := (path * path)%type.         (* working directory at the time, relative path accessed *)
 
-Definition get_stream (F : facts) (W : world) (cwd : path) (p : path) (blob : option content) (r : ref)
+(* [del]: the keyword argument `deleted` (false where the caller does not pass it, or the function does not have it) *)
+Definition get_stream (F : facts) (W : world) (cwd : path) (p : path) (blob : option content) (r : ref) (del : bool)
            (repo_dir : dirarg) : path * list read * outcome :=
   match p with
   | [] => (cwd, [], OStream SMissing)
@@ -96,6 +101,7 @@ Definition get_stream (F : facts) (W : world) (cwd : path) (p : path) (blob : op
     if negb (is_nb F p) then (cwd, [], ONotNb) else
     match r with
     | RWorktree =>
+        if f_deleted_missing F && del then (cwd, [], OStream SMissing) else     (* `if deleted: return EXPLICIT_MISSING_FILE` *)
         let old := match f_pushd_saves F with Curdir => Up 0 | Getcwd => Abs cwd end in
         let cwd1 := chdir cwd repo_dir in
         let o := pushd_body F W cwd1 p in
@@ -137,11 +143,11 @@ Fixpoint cn_loop (F : facts) (W : world) (rb rr : ref) (repo_dir : dirarg) (es :
   match es with
   | [] => {| r_yields := []; r_reads := []; r_cwd := cwd; r_raised := false |}
   | e :: rest =>
-    let '(cwd1, rd1, oa) := get_stream F W cwd (a_path e) (a_blob e) rb repo_dir in
+    let '(cwd1, rd1, oa) := get_stream F W cwd (a_path e) (a_blob e) rb false repo_dir in
     if is_raise oa then {| r_yields := []; r_reads := rd1; r_cwd := cwd1; r_raised := true |}
     else if early_skip F oa then add_reads rd1 (cn_loop F W rb rr repo_dir rest cwd1)
     else
-      let '(cwd2, rd2, ob) := get_stream F W cwd1 (b_path e) (b_blob e) rr repo_dir in
+      let '(cwd2, rd2, ob) := get_stream F W cwd1 (b_path e) (b_blob e) rr (e_deleted e) repo_dir in
       if is_raise ob then {| r_yields := []; r_reads := rd1 ++ rd2; r_cwd := cwd2; r_raised := true |}
       else match pair_of F oa ob with
            | None => add_reads (rd1 ++ rd2) (cn_loop F W rb rr repo_dir rest cwd2)
@@ -166,14 +172,16 @@ Definition changed_notebooks_abs (F : facts) (W : world) (root cwd : path) (rb r
   cn_loop F W rb rr (Abs root) (w_diff W (tree_of_base rb) rr paths) cwd.
 
 (* ------------------------------------------------------------------ specification side *)
-(* what one side of an entry should be, reading the working tree at the repository root *)
-Definition spec_stream (F : facts) (W : world) (root : path) (p : path) (blob : option content) (r : ref) : outcome :=
+(* what one side of an entry should be, reading the working tree at the repository root; the working-tree side of an
+   entry that git reports as deleted ([del]) is the missing file whatever sits at the path on disk (an untracked file
+   after `git rm --cached`, a file re-created after a staged deletion): this does not depend on the source facts *)
+Definition spec_stream (F : facts) (W : world) (root : path) (p : path) (blob : option content) (r : ref) (del : bool) : outcome :=
   match p with
   | [] => OStream SMissing
   | _ :: _ =>
     if negb (is_nb F p) then ONotNb else
     match r with
-    | RWorktree => pushd_body F W root p
+    | RWorktree => if del then OStream SMissing else pushd_body F W root p
     | _ => match blob with None => OStream SMissing | Some c => OStream (SBlob c) end
     end
   end.
@@ -182,11 +190,11 @@ Fixpoint spec_pairs (F : facts) (W : world) (root : path) (rb rr : ref) (es : li
   match es with
   | [] => ([], false)
   | e :: rest =>
-    let oa := spec_stream F W root (a_path e) (a_blob e) rb in
+    let oa := spec_stream F W root (a_path e) (a_blob e) rb false in
     if is_raise oa then ([], true)
     else if early_skip F oa then spec_pairs F W root rb rr rest
     else
-      let ob := spec_stream F W root (b_path e) (b_blob e) rr in
+      let ob := spec_stream F W root (b_path e) (b_blob e) rr (e_deleted e) in
       if is_raise ob then ([], true)
       else match pair_of F oa ob with
            | None => spec_pairs F W root rb rr rest
@@ -200,7 +208,8 @@ Definition entry_is_nb (F : facts) (e : entry) : bool :=
   else nb_or_none F (a_path e) && nb_or_none F (b_path e).
 Definition stream_of (o : outcome) : stream := match o with OStream s => s | _ => SMissing end.
 Definition entry_pair (F : facts) (W : world) (root : path) (rb rr : ref) (e : entry) : stream * stream :=
-  (stream_of (spec_stream F W root (a_path e) (a_blob e) rb), stream_of (spec_stream F W root (b_path e) (b_blob e) rr)).
+  (stream_of (spec_stream F W root (a_path e) (a_blob e) rb false),
+   stream_of (spec_stream F W root (b_path e) (b_blob e) rr (e_deleted e))).
 Definition pairs_of (r : result) : list (stream * stream) := map (fun y => (y_a y, y_b y)) (r_yields r).
 
 (* ------------------------------------------------------------------ resolve_diff_args / main_diff *)
